@@ -1,5 +1,6 @@
 import ServiceModel.Proofs.Reachable
 import ServiceModel.Proofs.Stable
+import ServiceModel.Proofs.Valid
 /-!
 # C15 — Definitions and bindings are unique, stable and consistently indexed
 -/
@@ -65,5 +66,13 @@ theorem binding_identity_never_changes (s : State) (ops : List Op) (k : SvcName 
 /-- A provider has one owner for life. -/
 theorem provider_owner_for_life (s : State) (ops : List Op) (pv o : Addr) (h : Map.get s.owner pv = some o) :
     Map.get (after s ops).owner pv = some o := (stable_after ops s).owner pv o h
+
+/-- Every stored definition and binding satisfies the module's own validity rules (on the fields the model
+    carries: author, names, provider, owner, QoS): records are written only by messages that passed stateless
+    validation, and the later rewrites of a binding keep its key, owner and a positive QoS. -/
+theorem stored_records_valid {s : State} (hr : Reachable cfg p h0 t0 s) :
+    (∀ n d, Map.get s.defs n = some d → defValid n d = true) ∧
+    (∀ k b, Map.get s.bindings k = some b → bindingValid k b = true) :=
+  ⟨(recOK hr).defs, (recOK hr).binds⟩
 
 end SM.C15
